@@ -188,20 +188,23 @@ BALANCED_LOOPS = {
     "count": 5,
 }
 # ---- numa-balanced ----
+# Two units over the same lifted text: P_BOUNDS (indices, sums, error reporting) and P_PAIR (same pair / in mask).
 NCS, NPS, NTS = "num_cores_socket", "num_pus_socket", "num_threads_socket"
 SZ3 = "num_cores_socket.size == num_sockets && num_pus_socket.size == num_sockets && num_threads_socket.size == num_sockets"
 NCS_AT = "num_cores_socket.c_valid && num_cores_socket.c_idx == n"
 NTS_TOT = "num_threads_socket.sum_known && num_threads_socket.total <= num_threads && VV_WF(num_threads_socket)"
 HEAD6 = "(n == 0 ? (num_thread == 0 && !num_threads_socket.scan_valid) : (%s && num_thread <= num_threads_socket.scan_prefix + num_threads_socket.c_val))" % SCAN_AT(NTS, "n - 1")
 NPC1 = "num_pus_cores.sum_known && num_pus_cores.total == num_thread_socket && !num_pus_cores.scan_valid"
-PIN = pi_inv("core_offset")
+# sizes of the per-socket vectors; the victim core's inner vector has as many entries as its counter says
+PIB = ("pu_indexes.size == NCORES && num_pus_cores.size == NCORES && next_pu_index.size == NCORES && VV_WF(num_pus_cores)"
+       " && (g_cv >= NCORES || pu_indexes.v_size == num_pus_cores.v_val)")
 NUMA_P2_OUTER = ("(num_core == 0 ? (!num_pus_cores.scan_valid && num_thread <= num_threads_socket.scan_prefix) : "
                  "(%s && num_thread <= num_threads_socket.scan_prefix + num_pus_cores.scan_prefix + num_pus_cores.c_val))" % SCAN_AT("num_pus_cores", "num_core - 1"))
 NUMA_P2_INNER = ("((num_pu == 0 && %s) || (%s && num_pu <= num_pus_cores.c_val && num_thread <= num_threads_socket.scan_prefix + num_pus_cores.scan_prefix + num_pu))"
                  % (NUMA_P2_OUTER, SCAN_AT("num_pus_cores", "num_core")))
-NUMA_P2_COMMON = "%s && %s && %s && num_pus_cores.sum_known && num_pus_cores.total <= num_threads_socket.c_val && %s && %s && %s && %s" % (
-    NCS_AT, SCAN_AT(NTS, "n"), NTS_TOT, PIN, K_INV, E_INV, C_INV)
-NUMA_LOOPS = {
+NUMA_P2_COMMON = "%s && %s && %s && num_pus_cores.sum_known && num_pus_cores.total <= num_threads_socket.c_val && %s && %s && %s" % (
+    NCS_AT, SCAN_AT(NTS, "n"), NTS_TOT, PIB, E_INV, C_INV)
+NUMA_LOOPS_BOUNDS = {
     1: "__CPROVER_assigns(n, num_cores_socket)\n__CPROVER_loop_invariant(n <= num_sockets && %s)" % SZ3,
     2: "__CPROVER_assigns(n, core_offset, pus_t, num_pus_socket, num_cores_socket, g_invalid_pair)\n__CPROVER_loop_invariant(n <= num_sockets && %s)" % SZ3,
     3: "__CPROVER_assigns(num_core, num_pus_socket, num_cores_socket, g_invalid_pair)\n__CPROVER_loop_invariant(n < num_sockets && %s)" % SZ3,
@@ -210,15 +213,15 @@ NUMA_LOOPS = {
        "__CPROVER_loop_invariant(n <= num_sockets && %s && num_threads_socket.sum_known && num_threads_socket.total == pus_t2 && num_threads_socket.zero_from == n"
        " && pus_t2 <= num_threads && !num_threads_socket.scan_valid && VV_WF(num_threads_socket))" % SZ3,
     6: "__CPROVER_assigns(n, num_thread, core_offset, num_threads_socket, num_cores_socket, OUT_FRAME, PI_FRAME, ERR_FRAME)\n"
-       "__CPROVER_loop_invariant(n <= num_sockets && %s && %s && %s && %s && %s && %s)" % (SZ3, NTS_TOT, HEAD6, K_INV, E_INV, C_INV),
+       "__CPROVER_loop_invariant(n <= num_sockets && %s && %s && %s && %s && %s)" % (SZ3, NTS_TOT, HEAD6, E_INV, C_INV),
     7: "__CPROVER_assigns(num_thread_socket, num_threads_socket, num_cores_socket, next_pu_index, num_pus_cores, pu_indexes, g_invalid_pair)\n"
        "__CPROVER_loop_invariant(n < num_sockets && %s && %s && %s && %s && %s && ((num_thread_socket == 0 && %s) || "
        "(%s && num_thread_socket <= num_threads_socket.c_val && num_thread <= num_threads_socket.scan_prefix)))" % (
-           SZ3, NCS_AT, NTS_TOT, NPC1, PIN, HEAD6, SCAN_AT(NTS, "n")),
+           SZ3, NCS_AT, NTS_TOT, NPC1, PIB, HEAD6, SCAN_AT(NTS, "n")),
     8: "__CPROVER_assigns(num_core, num_thread_socket, num_threads_socket, num_cores_socket, next_pu_index, num_pus_cores, pu_indexes, g_invalid_pair)\n"
        "__CPROVER_loop_invariant(n < num_sockets && num_core <= NCORES && %s && %s && %s && %s && %s && "
        "%s && num_thread_socket < num_threads_socket.c_val && num_thread <= num_threads_socket.scan_prefix)" % (
-           SZ3, NCS_AT, NTS_TOT, NPC1, PIN, SCAN_AT(NTS, "n")),
+           SZ3, NCS_AT, NTS_TOT, NPC1, PIB, SCAN_AT(NTS, "n")),
     9: "__CPROVER_assigns(pu_index, use_pu, g_invalid_pair)\n__CPROVER_loop_invariant(!use_pu)",
     10: "__CPROVER_assigns(num_core, num_thread, num_cores_socket, num_pus_cores, pu_indexes, OUT_FRAME, PI_FRAME, ERR_FRAME)\n"
         "__CPROVER_loop_invariant(n < num_sockets && num_core <= NCORES && %s && %s && %s)" % (SZ3, NUMA_P2_COMMON, NUMA_P2_OUTER),
@@ -226,16 +229,48 @@ NUMA_LOOPS = {
         "__CPROVER_loop_invariant(n < num_sockets && num_core < NCORES && %s && %s && %s)" % (SZ3, NUMA_P2_COMMON, NUMA_P2_INNER),
     "count": 11,
 }
+# P_PAIR: what is stored for worker k satisfies the property predicates; the victim cell of pu_indexes holds a PU of
+# core g_cv + core_offset that passed pu_in_process_mask
+KP = "K_SHAPE && SAME_PAIR && IN_MASK(use_process_mask)"
+PIC = "(!(use_process_mask && g_jv < pu_indexes.v_size && g_cv + core_offset == g_vc && pu_indexes.v_val == g_vp) || g_v_inmask)"
+NUMA_LOOPS_PAIR = {
+    1: "__CPROVER_assigns(n, num_cores_socket)\n__CPROVER_loop_invariant(n <= num_sockets)",
+    2: "__CPROVER_assigns(n, core_offset, pus_t, num_pus_socket, num_cores_socket, g_invalid_pair)\n__CPROVER_loop_invariant(n <= num_sockets)",
+    3: "__CPROVER_assigns(num_core, num_pus_socket, num_cores_socket, g_invalid_pair)\n__CPROVER_loop_invariant(n < num_sockets)",
+    4: "__CPROVER_assigns(num_pu, num_pus_socket, g_invalid_pair)\n__CPROVER_loop_invariant(num_pu <= num_pus)",
+    5: "__CPROVER_assigns(n, pus_t2, num_threads_socket, num_pus_socket)\n__CPROVER_loop_invariant(n <= num_sockets)",
+    6: "__CPROVER_assigns(n, num_thread, core_offset, num_threads_socket, num_cores_socket, OUT_FRAME, PI_FRAME, ERR_FRAME)\n"
+       "__CPROVER_loop_invariant(n <= num_sockets && !vx_exc && %s)" % KP,
+    7: "__CPROVER_assigns(num_thread_socket, num_threads_socket, num_cores_socket, next_pu_index, num_pus_cores, pu_indexes, g_invalid_pair)\n"
+       "__CPROVER_loop_invariant(%s)" % PIC,
+    8: "__CPROVER_assigns(num_core, num_thread_socket, num_threads_socket, num_cores_socket, next_pu_index, num_pus_cores, pu_indexes, g_invalid_pair)\n"
+       "__CPROVER_loop_invariant(%s)" % PIC,
+    9: "__CPROVER_assigns(pu_index, use_pu, g_invalid_pair)\n__CPROVER_loop_invariant(!use_pu)",
+    10: "__CPROVER_assigns(num_core, num_thread, num_cores_socket, num_pus_cores, pu_indexes, OUT_FRAME, PI_FRAME, ERR_FRAME)\n"
+        "__CPROVER_loop_invariant(!vx_exc && %s && %s)" % (KP, PIC),
+    11: "__CPROVER_assigns(num_pu, num_thread, num_pus_cores, pu_indexes, OUT_FRAME, PI_FRAME, ERR_FRAME)\n"
+        "__CPROVER_loop_invariant(!vx_exc && %s && %s)" % (KP, PIC),
+    "count": 11,
+}
 ROUND = Sub(r"static_cast<std::size_t>\(std::round\(\s*static_cast<double>\(([^;]+?)\)\s*/\s*static_cast<double>\(([^;]+?)\)\)\)",
             r"vx_round_ratio(\1, \2)", 1)
 DEC_RULES = [THROWS_IF, CNT_CALL] + SPELL + [TOPO] + OUT_VECS
 
+def numa_lifts(loops):
+    return dict(HELPERS, body=Lift(PAO, r"void decode_numabalanced_distribution\(", rules=[ROUND] + DEC_RULES + LOCAL_DECLS +
+                                   locvec(NCS) + locvec(NPS, writes=None, pre_incs=1) + locvec(NTS) + locvec("next_pu_index") +
+                                   locvec("num_pus_cores", writes=None, incs=1) + PU_INDEXES, loops=loops))
+
+
 UNITS = [
-    Unit("decode.numa_balanced", "decoders.c", defines=["U_NUMA", "NCORES=num_cores_socket.c_val"], enforce="decode_numabalanced_distribution",
-         lifts=dict(HELPERS, body=Lift(PAO, r"void decode_numabalanced_distribution\(", rules=[ROUND] + DEC_RULES + LOCAL_DECLS +
-                                       locvec(NCS) + locvec(NPS, writes=None, pre_incs=1) + locvec(NTS) + locvec("next_pu_index") +
-                                       locvec("num_pus_cores", writes=None, incs=1) + PU_INDEXES, loops=NUMA_LOOPS)),
-         funcs=[PAO + ": decode_numabalanced_distribution, check_num_threads, pu_in_process_mask"], min_obligations=40, timeout=300, no_replay=DEV, object_bits=12),
+    Unit("decode.numa_balanced.bounds", "decoders.c", defines=["U_NUMA_BOUNDS", "NCORES=num_cores_socket.c_val"],
+         enforce="decode_numabalanced_distribution", lifts=numa_lifts(NUMA_LOOPS_BOUNDS),
+         funcs=[PAO + ": decode_numabalanced_distribution, check_num_threads, pu_in_process_mask"], min_obligations=40, timeout=300, no_replay=DEV, object_bits=12,
+         doc="every vector access in bounds, num_pus sized, oversubscription reported"),
+    Unit("decode.numa_balanced.pair", "decoders.c", defines=["U_NUMA_PAIR", "VX_NO_IDX_ASSERT", "VX_NO_SUM"],
+         enforce="decode_numabalanced_distribution", lifts=numa_lifts(NUMA_LOOPS_PAIR),
+         funcs=[PAO + ": decode_numabalanced_distribution, check_num_threads, pu_in_process_mask"], min_obligations=40, timeout=300, no_replay=DEV, object_bits=12,
+         doc="reported PU number and mask come from the same (core, pu) pair; only PUs inside the process mask are used"),
     Unit("decode.balanced", "decoders.c", defines=["U_BALANCED", "NCORES=num_cores"], enforce="decode_balanced_distribution",
          lifts=dict(HELPERS, body=Lift(PAO, r"void decode_balanced_distribution\(", rules=DEC_RULES + LOCAL_DECLS + locvec("next_pu_index") +
                                        locvec("num_pus_cores", writes=None, incs=1) + PU_INDEXES, loops=BALANCED_LOOPS)),
